@@ -910,6 +910,17 @@ class Frame:
         if isinstance(s, ast.Expr):
             if isinstance(s.value, ast.Constant):
                 return [(st, ("fall",))]
+            c0 = s.value
+            if (isinstance(c0, ast.Call) and isinstance(c0.func, ast.Attribute) and c0.func.attr == "setdefault" and len(c0.args) == 2 and not c0.keywords
+                    and isinstance(c0.func.value, ast.Name) and (isinstance(st.env.get(c0.func.value.id), ADict) or self._cond_of_dicts(st.env.get(c0.func.value.id)))):
+                # d.setdefault(k, v) as a statement, on a dictionary built here:  if k not in d: d[k] = v
+                test = ast.Compare(left=c0.args[0], ops=[ast.NotIn()], comparators=[c0.func.value])
+                store = ast.Assign(targets=[ast.Subscript(value=c0.func.value, slice=c0.args[0], ctx=ast.Store())], value=c0.args[1])
+                node_if = ast.If(test=test, body=[store], orelse=[])
+                for n_ in (test, store, node_if):
+                    ast.copy_location(n_, s)
+                ast.fix_missing_locations(node_if)
+                return self.exec_stmt(node_if, st)
             r = self.eval(s.value, st)
             # `x.m(args)` as a statement on a locally created opaque object is called for its effect:
             # rebind the local to the updated object, so that later uses see that it was edited
@@ -1428,6 +1439,12 @@ class Frame:
         name = type(op).__name__
         return Poly.atom(("call", "op_" + name, (a.key(), b.key()), ()))
 
+    @staticmethod
+    def _cond_of_dicts(v):
+        """A dictionary built here that was filled under a test (its state merged into a conditional)."""
+        a = v.as_atom() if isinstance(v, Poly) else None
+        return a is not None and a[0] == "cond" and all(isinstance(k, tuple) and k and k[0] == "dict" for _, k in a[1])
+
     def _is_sequence_term(self, v):
         """An uninterpreted value known to be a list: a concatenation, or the result of a repository function all of
         whose namesakes return lists."""
@@ -1706,6 +1723,8 @@ class Frame:
 
     def e_SetComp(self, e, st):
         l = self.e_ListComp(e, st)
+        if "set" not in st.env:
+            return self.call_named("set", "set", [l], {}, st, e)  # {x for ...} is set([x for ...])
         return Poly.atom(("call", "set", (l.key(),), ()))
 
     def e_DictComp(self, e, st):
@@ -2298,7 +2317,42 @@ class Frame:
             args.append(kwargs.pop(next(iter(nxt))))
         return args, kwargs
 
+    _IN_VIEWS = ("predecessors", "in_edges", "in_degree", "predecessor_indices")
+    _OUT_VIEWS = ("successors", "out_edges", "out_degree", "successor_indices")
+
+    @staticmethod
+    def _distinct_nodes(k1, k2):
+        """Two different pseudo-elements of one node collection (`G.nodes`, `G.node_indices()`, a mapping's keys): different nodes."""
+        a, b = key_atom(k1) if _is_polykey(k1) else None, key_atom(k2) if _is_polykey(k2) else None
+        if a is None or b is None or a[0] != "elem" or b[0] != "elem" or a[1] != b[1] or a[2] == b[2]:
+            return False
+        d = key_atom(a[1]) if _is_polykey(a[1]) else None
+        while d is not None and d[0] == "call" and d[1] in ("list", "tuple", "sorted") and len(d[2]) == 1 and _is_polykey(d[2][0]):
+            d = key_atom(d[2][0])
+        return d is not None and ((d[0] == "attr" and d[2] in ("nodes",)) or (d[0] == "mcall" and d[1] in ("nodes", "node_indices", "keys")))
+
     def opaque_mcall(self, name, recv, args, kwargs, st, node):
+        if name in self._IN_VIEWS + self._OUT_VIEWS and len(args) == 1 and not kwargs and isinstance(recv, Poly) and isinstance(args[0], Poly):
+            # adding the edge (a, b) changes the predecessors of b and the successors of a, of no other node: a view of
+            # another node asked of the graph after the edit is the view asked before it
+            nk = args[0].key()
+            inward = name in self._IN_VIEWS
+
+            def strip(k, depth=0):
+                a_ = key_atom(k) if _is_polykey(k) else None
+                if a_ is None or depth > 12:
+                    return k
+                if a_[0] == "upd" and a_[1] == "add_edge" and len(a_[3]) >= 2 and self._distinct_nodes(nk, a_[3][1] if inward else a_[3][0]):
+                    return strip(a_[2], depth + 1)
+                if a_[0] == "cond":
+                    alts = [strip(v, depth + 1) for _, v in a_[1]]
+                    if alts and all(x == alts[0] for x in alts):
+                        return alts[0]  # the same graph, as far as this node's view goes, whichever way the test went
+                return k
+
+            rk = strip(recv.key())
+            if rk != recv.key():
+                recv = poly_from_key(rk) if _is_polykey(rk) else Poly.atom(rk)
         if name == "update" and isinstance(recv, Poly) and ((len(args) == 1 and not kwargs and isinstance(args[0], ADict) and args[0].items and not args[0].doms) or (not args and kwargs and "**" not in kwargs)):
             # mapping.update({k: v, ...}) / mapping.update(k=v, ...) is the sequence of stores mapping[k] = v
             pairs = [(kk, vv) for kk, vv in args[0].items.values()] if args else [(k, v) for k, v in kwargs.items()]
